@@ -56,14 +56,17 @@ def run_case(ctx, rng, job):
             if (a == b) is not keq or (a != b) is keq or (keq and hash(a) != hash(b)):
                 ctx.violation('spaced-name-eq-hash', {'a': [str(a.__name__), a.__module__], 'b': [str(b.__name__), b.__module__],
                                                       'eq': a == b, 'hash_equal': hash(a) == hash(b)})
+    # ... and they take part in the general pool: equality and hashing against ordinarily named interfaces are
+    # plain tuple equality of the keys (ordering such a pair is unorderable, like the keys themselves)
+    ifs.extend(spaced[:2])
     # equal-keyed twins, on purpose (never wired into one graph)
     for _ in range(rng.randint(1, 3)):
-        t = rng.choice(ifs)
+        t = rng.choice([x for x in ifs if x.__name__ is not None])
         ifs.append(InterfaceClass(fresh(t.__name__), (Interface,), {}, __module__=fresh(t.__module__)))
     # equal-keyed twins whose concrete classes differ: an instance of an InterfaceClass subclass, and an interface
     # defining an interfacemethod (the library builds a private InterfaceClass subclass for it)
     for _ in range(rng.randint(1, 2)):
-        t = rng.choice(ifs)
+        t = rng.choice([x for x in ifs if x.__name__ is not None])
         if rng.random() < 0.5:
             ifs.append(SubInterfaceClass(fresh(t.__name__), (Interface,), {}, __module__=fresh(t.__module__)))
         else:
